@@ -16,4 +16,8 @@ for p in glob.glob('/verif/go/harness/access/*.go'):
 json.dump({'Replace': ov}, open('/verif/.build/adhoc/overlay.json', 'w'))
 PY
 cp /repo/go.mod /repo/go.sum .build/adhoc/
-cd /repo && go build -tags verif -overlay /verif/.build/adhoc/overlay.json -modfile /verif/.build/adhoc/go.mod -o /verif/.build/verifharness ./internal/verifharness
+if [ -n "$RACE" ]; then
+  cd /repo && CGO_ENABLED=1 go build -race -tags verif -overlay /verif/.build/adhoc/overlay.json -modfile /verif/.build/adhoc/go.mod -o /verif/.build/verifharness-race ./internal/verifharness
+else
+  cd /repo && go build -tags verif -overlay /verif/.build/adhoc/overlay.json -modfile /verif/.build/adhoc/go.mod -o /verif/.build/verifharness ./internal/verifharness
+fi
